@@ -14,6 +14,28 @@ type State struct {
 	Heap  map[string]*Term
 	Alloc *Term
 	Epoch *Term // distinguishes the default (never written) contents of heap families across total havocs
+	// Writes is the log of heap locations written (or havocked on behalf of a callee) so far
+	// on the paths this state stands for. Frame conditions are checked against it: each
+	// logged write must be covered by a modifies clause or hit an object allocated later.
+	Writes []*WriteRec
+}
+
+// WriteRec is one logged write.
+type WriteRec struct {
+	Kind   string // field, elem, range, map, global, everything
+	Key    string // type key of the struct / element / map family, or global name
+	Prefix string // field path written (field/elem kinds)
+	Ref    *Term  // object, array or map reference
+	Idx    *Term  // element index (elem), or first index (range)
+	N      *Term  // number of elements (range)
+	Guard  *Term  // path condition at the write
+	Desc   string
+}
+
+func (s *State) logWrite(w *WriteRec) {
+	w.Guard = s.G
+	// copy-on-append: states share prefixes of the log
+	s.Writes = append(s.Writes[:len(s.Writes):len(s.Writes)], w)
 }
 
 func newState() *State {
@@ -21,7 +43,7 @@ func newState() *State {
 }
 
 func (s *State) clone() *State {
-	n := &State{G: s.G, Cells: make(map[*Cell]Value, len(s.Cells)), Heap: make(map[string]*Term, len(s.Heap)), Alloc: s.Alloc, Epoch: s.Epoch}
+	n := &State{G: s.G, Cells: make(map[*Cell]Value, len(s.Cells)), Heap: make(map[string]*Term, len(s.Heap)), Alloc: s.Alloc, Epoch: s.Epoch, Writes: s.Writes}
 	for k, v := range s.Cells {
 		n.Cells[k] = v
 	}
@@ -92,6 +114,17 @@ func mergeStates(a, b *State) *State {
 	}
 	out.Alloc = Ite(c, a.Alloc, b.Alloc)
 	out.Epoch = Ite(c, a.Epoch, b.Epoch)
+	// union of the write logs (entries carry their own guards)
+	seenW := map[*WriteRec]bool{}
+	for _, w := range a.Writes {
+		seenW[w] = true
+	}
+	out.Writes = append(out.Writes, a.Writes...)
+	for _, w := range b.Writes {
+		if !seenW[w] {
+			out.Writes = append(out.Writes, w)
+		}
+	}
 	return out
 }
 
@@ -341,6 +374,19 @@ func nestedStore(arr *Term, idxs []*Term, val *Term) *Term {
 }
 
 func (s *State) store(l Loc, v Value) {
+	switch l.Kind {
+	case LHeap:
+		prefix, _, _ := pathString(l.Root, l.Path)
+		s.logWrite(&WriteRec{Kind: "field", Key: typeKey(l.Root), Prefix: prefix, Ref: l.Ref})
+	case LElem:
+		prefix, _, _ := pathString(l.Root, l.Path)
+		s.logWrite(&WriteRec{Kind: "elem", Key: typeKey(l.Root), Prefix: prefix, Ref: l.Arr, Idx: l.Idx})
+	case LGlobal:
+		s.logWrite(&WriteRec{Kind: "global", Key: l.Glob})
+	case LArr:
+		at := l.Ty.Underlying().(*types.Array)
+		s.logWrite(&WriteRec{Kind: "range", Key: typeKey(at.Elem()), Ref: l.Arr, Idx: BVi(0, 64), N: BVi(at.Len(), 64)})
+	}
 	if l.Kind == LArr {
 		storeArr(s, l, v)
 		return
